@@ -154,7 +154,8 @@ def run(case):
     UNITS = {"mm": 1e-3, "km": 1e3}
     if bc in ("none", "clamped-face", "clamped-face+p"):  # (the coordinate-plane dictionaries select by un-scaled coordinates)
         motions += [(u, s_ * np.eye(d), np.zeros(d)) for u, s_ in UNITS.items()]
-    for (E, nu), rho in itertools.product(((1.0, 0.3), (210.0, 0.0), (5.0, 0.45)), (1.0, 7.8)):
+    # (density 7.8e12: the same steel-like body in a unit system with a small time unit -- all eigenvalues ~ 1e-13)
+    for (E, nu), rho in list(itertools.product(((1.0, 0.3), (210.0, 0.0), (5.0, 0.45)), (1.0, 7.8))) + [((2.1, 0.3), 7.8e12), ((2.1e11, 0.3), 7.8e-9)]:
         for mlab, Q, t in (motions if (E, nu, rho) == (1.0, 0.3, 1.0) else motions[:1]):
             mesh = fem.Mesh(base.points @ Q.T + t, base.cells, base.cell_type)
             region = zoo.region(mk, mesh)
@@ -278,9 +279,11 @@ def run(case):
                     lam7 = np.sort(lam_)[nrig]
                     nzero = int((np.abs(lam_) <= 1e-8 * lam7).sum())
                     outcomes.add(f"zero-modes={nzero}")
-                    if nzero > nrig or nzero < nrig - 1:
+                    if nzero > nrig or nzero == 0:
                         bad(sub + "/rigid-modes", "number of zero-frequency modes of an unconstrained body", nzero, nrig)
-                    elif nzero == nrig - 1:
+                    elif nzero < nrig:
+                        # fewer copies of the multiple zero eigenvalue than exist (see ASSUMPTIONS): the count is decided on the
+                        # dense pencil, the returned values by the sub-multiset clause above
                         outcomes.add("arpack-returned-fewer-copies-of-a-multiple-eigenvalue")
                 if k == 10 or (k == 6 and 10 >= len(dof1) - 1):
                     spectra[(E, nu, rho, mlab)] = np.sort(lam_)
